@@ -63,11 +63,17 @@ pub fn gen_cache(ctx: &Ctx) {
     let mut rng = Rng::new(ctx.seed, "datecache");
     let mut out = Out::new(&ctx.dir, "datecache");
     out.rule = "histories of 1..12 clock readings in [0, 253402300799] seen by one fresh thread: monotone, repeated, \
-                backward and far-apart readings; non-trivial = history contains both a repeated and a changed reading".into();
+                backward and far-apart readings, half of them starting within 3 s of a day/hour/minute boundary; non-trivial = history contains both a repeated and a changed reading".into();
     let n = if ctx.thorough { 20000 } else { 2000 };
     for _ in 0..n {
         let len = rng.range(1, 12) as usize;
-        let mut t: i64 = rng.below(253_402_300_799) as i64;
+        // half of the histories start within a few seconds of a day / hour / minute boundary
+        let mut t: i64 = match rng.below(4) {
+            0 => rng.below(253_402_300_799) as i64,
+            1 => rng.below(2_932_896) as i64 * 86400 + 86400 - rng.range(0, 3) as i64,
+            2 => rng.below(2_932_896) as i64 * 86400 + 3600 * rng.range(1, 23) as i64 - rng.range(0, 2) as i64,
+            _ => rng.below(2_932_896) as i64 * 86400 + 60 * rng.range(1, 1439) as i64 - rng.range(0, 2) as i64,
+        };
         let mut rs = Vec::new();
         let (mut rep, mut chg) = (false, false);
         for _ in 0..len {
